@@ -374,7 +374,10 @@ def np_prod(ex, args, kw):
     v = args[0]
     if isinstance(v, (Vec, list, tuple)):
         items = v.items if isinstance(v, Vec) else list(v)
-        return zprod([b2i(x) for x in items]) if items else 1
+        r = zprod([b2i(x) for x in items]) if items else 1
+        if sum(1 for x in items if is_z3(x)) >= 2:
+            return ex.ctx.define(r, "prod")
+        return r
     if isinstance(v, NDArray) and v.ndim == 1 and isinstance(v.shape[0], int):
         return zprod([v.elem((t,)) for t in range(v.shape[0])])
     raise Unsupported(f"np.prod({typetag(v)})")
